@@ -233,6 +233,52 @@ Definition server_handshake (ts : tlsserver) (f : facts) (now : N) : bool :=
     && forallb (fun c => accepts (verify c f now)) (ts_verifiers ts)
   end.
 
+(* ---------- tlsconfig.go decodeFingerprints: pinnedservercert / pinnedclientcert ---------- *)
+(* strings.ReplaceAll(s, ":", "") *)
+Definition strip_colons (s : bytes) : bytes := filter (fun b => negb (b =? 58)) s.
+
+(* encoding/hex fromHexChar *)
+Definition hex_digit (c : N) : option N :=
+  if (48 <=? c) && (c <=? 57) then Some (c - 48)
+  else if (97 <=? c) && (c <=? 102) then Some (c - 87)
+  else if (65 <=? c) && (c <=? 70) then Some (c - 55)
+  else None.
+
+(* hex.DecodeString: pairs of hex digits in either case; an odd length or any other byte is an error *)
+Fixpoint hex_decode (s : bytes) : option bytes :=
+  match s with
+  | [] => Some []
+  | [_] => None
+  | a :: b :: r =>
+    match hex_digit a, hex_digit b, hex_decode r with
+    | Some x, Some y, Some t => Some (16 * x + y :: t)
+    | _, _, _ => None
+    end
+  end.
+
+(* one configured fingerprint: only sha256- and sha512-sized values are admitted *)
+Definition decode_fingerprint (s : bytes) : option bytes :=
+  match hex_decode (strip_colons s) with
+  | Some b => if (blen b =? 32) || (blen b =? 64) then Some b else None
+  | None => None
+  end.
+
+(* the whole option: the first bad entry refuses the configuration *)
+Fixpoint decode_fingerprints (l : list bytes) : option (list bytes) :=
+  match l with
+  | [] => Some []
+  | s :: r =>
+    match decode_fingerprint s, decode_fingerprints r with
+    | Some b, Some t => Some (b :: t)
+    | _, _ => None
+    end
+  end.
+
+(* ---------- named profile lookups: GetServerTLSConfig / GetClientTLSConfig ---------- *)
+(* 0 = (nil, nil): the empty name means "no TLS"; 1 = error: unknown name; 2 = a configuration *)
+Definition lookup_result (l : lookup) : N :=
+  match l with NoTLS => 0 | UnknownName => 1 | Found _ => 2 end.
+
 (* ---------- conn.go listen: the per-connection verifier of a stream listener ---------- *)
 (* the remote address of a QUIC connection over a netceptor PacketConn is the netceptor.Addr
    built by PacketConn.ReadFrom from the packet's FromNode / FromService *)
@@ -310,7 +356,12 @@ Inductive tls_case :=
 (* crypto/tls handshake, server side built by PrepareTLSServerConfig *)
 | TServer (now : N) (f : facts) (runs : list (server_profile * bool))
 (* mesh stream: a dial from node/service accepted by a listener with this server profile *)
-| TListen (now : N) (f : facts) (runs : list (server_profile * addr * bool)).
+| TListen (now : N) (f : facts) (runs : list (server_profile * addr * bool))
+(* the fingerprint strings of a tls-client / tls-server entry and what the configuration made of
+   them (None = the configuration was refused) *)
+| TFinger (strs : list bytes) (obs : option (list bytes))
+(* a profile lookup by name: kind 0 = empty name, 1 = a name never stored, 2 = a stored name *)
+| TLookup (kind : N) (obs : N).
 
 Definition tls_check (c : tls_case) : bool :=
   match c with
@@ -330,4 +381,13 @@ Definition tls_check (c : tls_case) : bool :=
     undecided f ||
     forallb (fun r => let '(sp, a, ok) := r in
       Bool.eqb (server_handshake (listener_config (server_config sp) a) f now) ok) runs
+  | TFinger strs obs =>
+    match decode_fingerprints strs, obs with
+    | Some a, Some b => beq_blist a b
+    | None, None => true
+    | _, _ => false
+    end
+  | TLookup kind obs =>
+    lookup_result (if kind =? 0 then NoTLS else if kind =? 1 then UnknownName
+                   else Found (mkProfile false [] [])) =? obs
   end.
